@@ -71,9 +71,10 @@ def parse_output(out):
             continue
         if p[0] == "V" and len(p) == 5:
             V.append(dict(case=p[1], tag=p[2], spec=p[3], verdict=p[4]))
-        elif p[0] == "X" and len(p) in (7, 9):
+        elif p[0] == "X" and len(p) in (7, 9, 10):
             X[p[1]] = dict(cls=p[2], n=int(p[3]), offgrid=int(p[4]), stale=int(p[5]), unresolved=int(p[6]),
-                           badframe=int(p[7]) if len(p) == 9 else 0, badup=int(p[8]) if len(p) == 9 else 0)
+                           badframe=int(p[7]) if len(p) >= 9 else 0, badup=int(p[8]) if len(p) >= 9 else 0,
+                           badlocals=int(p[9]) if len(p) >= 10 else 0)
         elif p[0] == "S" and len(p) >= 6:
             snap = [int(x) for x in p[5].split()]
             acc = [tuple(int(y) for y in a.split(":")) for a in (p[6].split() if len(p) > 6 else [])]
@@ -358,6 +359,11 @@ def run(ctx):
                               f"{xr['badframe']} instructions ran while the record of the running frame (what a return reloads: bytecode_ptr/len, "
                               "constants_ptr/len) did not describe the buffers of the frame's own function object",
                               {"profile": prof, "spec": d.get("spec"), "tag": d.get("tag"), "kind": "frame-record"})
+            if xr.get("badlocals"):
+                ctx.violation("frame:loop-locals-are-not-the-running-frame",
+                              f"{xr['badlocals']} instructions ran while the dispatch loop's cached base / code / constant / upvalue pointers and lengths "
+                              "were not those of the record of the running frame (a frame switch forgot to reload some of them)",
+                              {"profile": prof, "spec": d.get("spec"), "tag": d.get("tag")})
             if xr.get("badup"):
                 ctx.violation("frame:upvalue-vector-without-live-owner",
                               f"{xr['badup']} instructions ran in a frame whose upvalues_ptr is not the upvalue vector of any closure in the heap "
